@@ -29,6 +29,7 @@ class S(explore.Spec):
   rename_targets = ("Z", "B")
   reparse = True
   follow_errors = True
+  readd_ops = True
 
   def extra_ops(self, g, env, hist):
     out = []
